@@ -1227,7 +1227,7 @@ class Gen(object):
             extra = []
             if self.p(0.6):
                 extra.append(('when', self.rng.choice(['first', 'last', 'cleanup'])))
-            elif self.p(0.15):
+            elif self.p(0.05):
                 # what a dump can contain besides a run phase, other spellings, an empty value
                 extra.append(('when', self.rng.choice(['must-collect', 'FIRST', 'Cleanup', 'LAST', 'no-recurse', ''])))
                 self.hit('signal:when=' + extra[-1][1])
@@ -1966,6 +1966,17 @@ class Pipeline(object):
         return out
 
 
+def signal_when_outside_schema(gir_text):
+    """-> the `when` values of signals that are not one of the schema's "first" | "last" | "cleanup" (docs/gir-1.2.rnc):
+    such a document is not a valid GIR, i.e. outside the property's quantifier"""
+    try:
+        root = ET.fromstring(gir_text)
+    except ET.ParseError:
+        return []
+    return sorted(set(sg.get('when') for sg in root.iter(q('glib:signal'))
+                      if sg.get('when') is not None and sg.get('when') not in ('first', 'last', 'cleanup')))
+
+
 def classify_rejection(res):
     """parse-level rejection (the GIR is outside 'GIRs the compiler accepts') vs a failure after parsing"""
     se = res['stderr']
@@ -2224,6 +2235,15 @@ class Judge(object):
                     ctx.report_failure(self.api_key(case, 'rejected'),
                                        'a GIR of the fixed corpus / limit set that the unchanged compiler accepts is now '
                                        'rejected: rc=%d %s' % (res['rc'], res['stderr'][-400:]), replay_obj(case))
+                return False
+            if 'Invalid signal run flags' in res['stderr'] and signal_when_outside_schema(case['gir']):
+                # when="must-collect" (gdump.c can write it), when="" ...: no run phase, the compiler's own validation
+                # refuses the typelib.  Not a valid GIR by the schema: outside, but worth a note
+                cnt.hit('outside:signal-when-not-in-schema')
+                if not any('signal-when' in n for n in ctx.notes):
+                    ctx.notes.append('signal-when: a <glib:signal when=%r> (not first|last|cleanup) is parsed, gets no run flag and '
+                                     'g-ir-compiler then aborts in its self-validation ("Invalid signal run flags")'
+                                     % signal_when_outside_schema(case['gir'])[0])
                 return False
             cnt.hit('fail:compiler-crashed')
             ctx.report_failure(self.api_key(case, 'crash'),
